@@ -156,6 +156,8 @@ async def main():
                             raise
                 pending["task"] = asyncio.create_task(call())
                 await asyncio.sleep(case.get("flight_time", 0.2))
+            if case.get("idle"):
+                await asyncio.sleep(case["idle"])   # the application does something else and reads nothing meanwhile
             ex = case["exit"]
             if ex == "normal":
                 marks["exit_start"] = time.monotonic()
